@@ -418,3 +418,68 @@ Example sound_example :
           (BCons 10 (Label 1) (BCons 11 (Goto 1) BNil)))) in
   analyzer_ok p = true /\ rule_ok p = true.
 Proof. vm_compute. auto. Qed.
+
+(* ================================================================== completeness of the name checks *)
+Lemma names_complete :
+  (forall s, forall ch id, nonempty ch -> rname_stmt (up_fun_id ch) (flat ch) s = true -> aname_stmt ch id s = []) /\
+  (forall b, forall ch, nonempty ch -> rname_block (up_fun_id ch) (flat ch) b = true -> aname_block ch b = []) /\
+  (forall cs, forall ch, nonempty ch -> rname_cases (up_fun_id ch) (flat ch) cs = true -> aname_cases ch cs = []).
+Proof.
+  apply sbc_mutind; try (intros; reflexivity).
+  - (* Assign *) intros x ch id Hne H. cbn [aname_stmt rname_stmt] in *. unfold id_errs.
+    rewrite chain_lookup_flat. destruct (lookup x (flat ch)) as [y|]; [|discriminate].
+    apply andb_true_iff in H as [H1 H2]. rewrite accessible_visible, H1. simpl.
+    destruct (sar y); [discriminate|]. destruct (sq y); try discriminate. reflexivity.
+  - (* Use *) intros x ch id Hne H. cbn [aname_stmt rname_stmt] in *. unfold id_errs.
+    rewrite chain_lookup_flat. destruct (lookup x (flat ch)) as [y|]; [|discriminate].
+    rewrite accessible_visible, H. reflexivity.
+  - (* Func *) intros f ps b IH ch id Hne H. cbn [aname_stmt rname_stmt] in *.
+    destruct ch as [|s0 r0]; [exfalso; apply Hne; reflexivity|].
+    set (symf := mksym QVar (Some (length ps)) (up_fun_id (s0 :: r0))) in *.
+    apply IH; [discriminate|].
+    assert (Hid : up_fun_id (mkn true [] :: declare f symf (s0 :: r0)) = S (up_fun_id (s0 :: r0))).
+    { unfold up_fun_id at 1. cbn [filter nfun]. cbn [length]. f_equal. apply up_fun_id_declare. }
+    rewrite Hid.
+    assert (Hid2 : forall l, up_fun_id (mkn false [] :: mkn true l :: declare f symf (s0 :: r0)) = S (up_fun_id (s0 :: r0))).
+    { intro l. unfold up_fun_id at 1. cbn [filter nfun]. cbn [length]. f_equal. apply up_fun_id_declare. }
+    rewrite Hid2.
+    unfold flat. cbn [flat_map nsyms app]. fold (flat (declare f symf (s0 :: r0))).
+    rewrite flat_declare.
+    unfold param_env in H. rewrite fold_cons_app in H. exact H.
+  - (* Call *) intros f n ch id Hne H. cbn [aname_stmt rname_stmt] in *.
+    rewrite chain_lookup_flat. destruct (lookup f (flat ch)) as [y|]; [|discriminate].
+    destruct (sar y) as [a|]; [|discriminate]. rewrite H. reflexivity.
+  - (* Do *) intros b IH ch id Hne H. cbn [aname_stmt rname_stmt] in *. apply IH; [discriminate | exact H].
+  - (* If *) intros t IHt e IHe ch id Hne H. cbn [aname_stmt rname_stmt] in *. apply andb_true_iff in H as [H1 H2].
+    rewrite (IHt (mkn false [] :: ch)); [|discriminate | exact H1].
+    rewrite (IHe (mkn false [] :: ch)); [reflexivity | discriminate | exact H2].
+  - (* While *) intros b IH ch id Hne H. cbn [aname_stmt rname_stmt] in *. apply IH; [discriminate | exact H].
+  - (* Repeat *) intros b IH ch id Hne H. cbn [aname_stmt rname_stmt] in *. apply IH; [discriminate | exact H].
+  - (* For *) intros b IH ch id Hne H. cbn [aname_stmt rname_stmt] in *. apply IH; [discriminate | exact H].
+  - (* Switch *) intros cs IHc els d IHd ch id Hne H. cbn [aname_stmt rname_stmt] in *. apply andb_true_iff in H as [H1 H2].
+    rewrite (IHc (mkn false [] :: ch)); [|discriminate | exact H1].
+    rewrite (IHd (mkn false [] :: mkn false [] :: ch)); [reflexivity | discriminate | exact H2].
+  - (* Defer *) intros b IH ch id Hne H. cbn [aname_stmt rname_stmt] in *. apply IH; [discriminate | exact H].
+  - (* BCons *) intros id s IHs r IHr ch Hne H. cbn [aname_block rname_block] in *.
+    apply andb_true_iff in H as [H1 H2]. rewrite (IHs ch id Hne H1). cbn [app].
+    destruct ch as [|s0 r0]; [exfalso; apply Hne; reflexivity|].
+    destruct s; try exact (IHr _ Hne H2).
+    + apply IHr; [discriminate|]. rewrite up_fun_id_declare, flat_declare. exact H2.
+    + apply IHr; [discriminate|]. rewrite up_fun_id_declare, flat_declare. exact H2.
+  - (* CCons *) intros b IHb r IHr ch Hne H. cbn [aname_cases rname_cases] in *. apply andb_true_iff in H as [H1 H2].
+    rewrite (IHb (mkn false [] :: ch)); [|discriminate | exact H1].
+    rewrite (IHr ch Hne H2). reflexivity.
+Qed.
+
+Theorem names_complete_thm : forall p, rule_names p = true -> off_names p = [].
+Proof.
+  intros p H. unfold off_names, rule_names in *.
+  apply (proj1 (proj2 names_complete) p [mkn false []; mkn true []]); [discriminate | exact H].
+Qed.
+
+(* the goto/defer check is deliberately conservative: a defer BEFORE the label is not crossed by a backward
+   goto, the rule allows it, the analyzer (has_defer flag of the whole scope) rejects it *)
+Example labels_conservative :
+  let p := BCons 1 (Defer BNil) (BCons 2 (Label 1) (BCons 3 (Goto 1) BNil)) in
+  rule_labels p = true /\ off_labels p = [(3%nat, KGotoDefer)].
+Proof. split; vm_compute; reflexivity. Qed.
